@@ -306,9 +306,54 @@ def randTargets : List String := ["random", "randomblob"]
 def containsTime (s : String) : Bool := containsCall timeTargets s.toList
 def containsRandom (s : String) : Bool := containsCall randTargets s.toList
 
+/-! ### splitting a statement text into its statements (`splitStatements`)
+The text is cut at the semicolons which end its statements; the semicolons inside the body of a
+CREATE [TEMP] TRIGGER statement (BEGIN … END, where CASE … END may nest) do not end it; empty
+statements are dropped. Tokens are what the scanner yields (comments skipped). -/
+
+inductive Tok where
+  | semi | create | temp | trigger | begin_ | case_ | end_ | other
+deriving Repr, DecidableEq
+
+/-- where in a statement the scan is -/
+inductive Mode where
+  | atStart | afterCreate | ordinary | triggerHead
+  | triggerBody (depth : Nat)
+deriving Repr, DecidableEq
+
+/-- one token: the mode afterwards, and whether the token ENDS the statement -/
+def splitStep : Mode → Tok → Mode × Bool
+  | .triggerBody d, .case_ => (.triggerBody (d + 1), false)
+  | .triggerBody d, .end_ => (if d ≤ 1 then .ordinary else .triggerBody (d - 1), false)
+  | .triggerBody d, _ => (.triggerBody d, false)
+  | .triggerHead, .begin_ => (.triggerBody 1, false)
+  | .triggerHead, .semi => (.atStart, true)
+  | .triggerHead, _ => (.triggerHead, false)
+  | .atStart, .create => (.afterCreate, false)
+  | .atStart, .semi => (.atStart, true)
+  | .atStart, _ => (.ordinary, false)
+  | .afterCreate, .temp => (.afterCreate, false)
+  | .afterCreate, .trigger => (.triggerHead, false)
+  | .afterCreate, .semi => (.atStart, true)
+  | .afterCreate, _ => (.ordinary, false)
+  | .ordinary, .semi => (.atStart, true)
+  | .ordinary, _ => (.ordinary, false)
+
+def emit (cur : List Tok) : List (List Tok) := if cur.isEmpty then [] else [cur]
+
+def splitAux : Mode → List Tok → List Tok → List (List Tok)
+  | _, cur, [] => emit cur
+  | m, cur, t :: rest =>
+    if (splitStep m t).2 then emit cur ++ splitAux (splitStep m t).1 [] rest
+    else splitAux (splitStep m t).1 (cur ++ [t]) rest
+
+/-- `splitStatements`, on the token level -/
+def splitToks (ts : List Tok) : List (List Tok) := splitAux .atStart [] ts
+
 /-! ### line protocol
 `rw <rwRand 0|1> <rwTime 0|1> <tree>` → `<modified 0|1> <returning 0|1> <tree>`
 `filter <hex lowered text>` → `<containsTime> <containsRandom>`
+`split <letters>` → the statements, `|`-separated (letters: s `;`, c CREATE, m TEMP, t TRIGGER, b BEGIN, k CASE, e END, o other; `-` none)
 tree tokens (prefix): `C <hexname> <nargs> <nextra> kids…`, `L <kind> <hexval>`, `I <hexname>`,
 `O <n> kids…`, `R <n> kids…`, `N <tag> <n> kids…`. `rand k` = 1000 + k, the clock reading prints as `0`. -/
 
@@ -380,6 +425,19 @@ def step (d : DState) (line : String) : DState × String :=
       let (n', st) := rewrite (driverCfg r t) n
       (d, " ".intercalate ([boolStr st.modified, boolStr st.returning] ++ printNode n'))
     | _, _, _ => (d, "bad-op")
+  | ["split", ls] =>
+    let toTok (ch : Char) : Option Tok :=
+      if ch == 's' then some .semi else if ch == 'c' then some .create else if ch == 'm' then some .temp
+      else if ch == 't' then some .trigger else if ch == 'b' then some .begin_ else if ch == 'k' then some .case_
+      else if ch == 'e' then some .end_ else if ch == 'o' then some .other else none
+    let toCh : Tok → Char
+      | .semi => 's' | .create => 'c' | .temp => 'm' | .trigger => 't' | .begin_ => 'b' | .case_ => 'k'
+      | .end_ => 'e' | .other => 'o'
+    match (if ls == "-" then some [] else ls.toList.mapM toTok) with
+    | some toks =>
+      let segs := splitToks toks
+      (d, if segs.isEmpty then "-" else "|".intercalate (segs.map fun sg => String.ofList (sg.map toCh)))
+    | none => (d, "bad-op")
   | ["filter", h] =>
     match tokString h with
     | some s => (d, boolStr (containsTime s) ++ " " ++ boolStr (containsRandom s))
